@@ -16,7 +16,7 @@ var (
 	CTDirs       = []string{"g2m", "m2g"} // goroutine writes & main sinks / main writes & goroutine sinks
 	CTTransports = []string{"field", "map", "slice", "chan", "global", "captured", "box", "nested", "copy", "append"}
 	CTShares     = []string{"goarg", "closure", "global", "chanptr", "holder"}
-	CTVias       = []string{"direct", "callee", "method", "deferred"}
+	CTVias       = []string{"direct", "callee", "method", "deferred", "inline"}
 )
 
 // TScenario is one generated case.
@@ -140,6 +140,13 @@ func RenderConcTaint(scs []*TScenario) string {
 			w("%s%s\n", indent, ctPut(sc.Transport, "c", "v", n))
 		}
 		switch sc.Via {
+		case "inline":
+			// the creating goroutine's side is written directly into the scenario function (below)
+			if sc.Dir == "g2m" {
+				w("func put%d(c *C) {\n", n)
+				putStmt("\t")
+				w("}\n")
+			}
 		case "direct":
 			w("func put%d(c *C) {\n", n)
 			putStmt("\t")
@@ -160,9 +167,11 @@ func RenderConcTaint(scs []*TScenario) string {
 			w("\tdefer func() {\n\t\t%s\n\t}()\n}\n", ctPut(sc.Transport, "c", "v", n))
 		}
 		// reading side
-		w("func get%d(c *C) {\n\t%s\n\tsink_%d(x)\n", n, ctGet(sc.Transport, "c", n), n)
-		sc.SinkLine = line - 1
-		w("}\n")
+		if !(sc.Via == "inline" && sc.Dir == "g2m") {
+			w("func get%d(c *C) {\n\t%s\n\tsink_%d(x)\n", n, ctGet(sc.Transport, "c", n), n)
+			sc.SinkLine = line - 1
+			w("}\n")
+		}
 		// the other goroutine gets the carrier through the sharing mechanism
 		other := "put"
 		mine := "get"
@@ -222,7 +231,32 @@ func RenderConcTaint(scs []*TScenario) string {
 		case "holder":
 			w("\th := &Holder{}\n\th.c = c\n\tgo other%d(h, %sdone)\n", n, readyArg)
 		}
-		if sc.Dir == "g2m" {
+		mineInline := func() {
+			if sc.Dir == "m2g" {
+				putStmt("\t")
+			} else {
+				w("\t%s\n\tsink_%d(x)\n", ctGet(sc.Transport, "c", n), n)
+				sc.SinkLine = line - 1
+			}
+		}
+		if sc.Via == "inline" {
+			if sc.Dir == "g2m" {
+				if sc.Sync {
+					w("\t<-done\n")
+					mineInline()
+				} else {
+					w("\tfor i := 0; i < 20000; i++ {\n\t\tspinSink += i\n\t}\n")
+					mineInline()
+					w("\t<-done\n")
+				}
+			} else {
+				mineInline()
+				if wait != "" {
+					w("\tready <- true\n")
+				}
+				w("\t<-done\n")
+			}
+		} else if sc.Dir == "g2m" {
 			if sc.Sync {
 				w("\t<-done\n\t%s%d(c)\n", mine, n)
 			} else {
